@@ -181,6 +181,13 @@ def gen_wheel_case(rng, idx, geom=None, nops=None):
             clk += tick * NS * rng.range(1, 2 * slots)
             ops.append("adv %d" % clk)
         ops.append("pending")
+        # ... and, when the wheel is small enough, far enough for every timer with a moderate deadline to be overdue by more
+        # than two full revolutions (the monitor then insists that it has fired: nothing is silently dropped)
+        if span_ticks <= 1200:
+            for _ in range(4):
+                clk += tick * NS * rng.range(span_ticks, span_ticks + 2 * slots) + rng.choice([0, 0, 1, NS // 2])
+                ops.append("adv %d" % clk)
+            ops.append("pending")
     return {"cat": "wheel", "ops": ops, "geom": [tick, slots, levels], "style": style, "idx": idx}
 
 
@@ -222,6 +229,8 @@ def monitor_wheel(c, impl):
     accepting = False
     ever_started = False
     dead = False       # stop()/drain() happened
+    last_adv = None    # _lastAdvanceTime
+    overdue = {}       # id -> ticks processed by advance() calls whose `now` was at or past the timer's deadline
     for op, ans in zip(c["ops"], impl):
         t = op.split()
         if ans.startswith("crash:") or ans.startswith("throw"):
@@ -242,6 +251,7 @@ def monitor_wheel(c, impl):
         elif t[0] == "start":
             if not ever_started and not dead:
                 accepting = True
+                last_adv = clk
             ever_started = True
         elif t[0] == "sched":
             i = int(ans)
@@ -270,10 +280,20 @@ def monitor_wheel(c, impl):
                     bad.append("W2: reschedule(%d) = true but the timer was not pending (%s)" % (i, gone.get(i, "never issued")))
                 pending.add(i)
                 deadline[i] = clk + int(t[2]) * NS
+                overdue.pop(i, None)
             elif i in pending:
                 bad.append("W2: reschedule(%d) = false although the timer is pending" % i)
         elif t[0] == "adv":
             clk = int(t[1])
+            # ticks this call processes (the documented catch-up rule), from the clock values alone
+            if last_adv is None:
+                nt = 1
+            else:
+                nt = max(1, int((clk - last_adv) / NS) // c["geom"][0]) if clk >= last_adv else 1
+            last_adv = clk
+            for i in pending:
+                if clk >= deadline[i]:
+                    overdue[i] = overdue.get(i, 0) + nt
             f = parse_fired(ans.split("f=")[1].split()[0])
             for i in f:
                 if i in gone:
@@ -319,6 +339,14 @@ def monitor_wheel(c, impl):
             if int(ans) != len(pending):
                 bad.append("W1: pendingCount() = %s but %d scheduled timers have neither fired nor been cancelled/drained (%s)"
                            % (ans, len(pending), sorted(pending)[:6]))
+            # never silently dropped: an entry whose deadline has passed fires when its bucket comes round again, i.e. within one
+            # revolution of the top level (`span` level-0 ticks) counted in ticks that advance() processed with now >= deadline
+            span = c["geom"][1] ** c["geom"][2]
+            for i in sorted(pending):
+                if overdue.get(i, 0) > span + 1:
+                    bad.append("W1: timer %d (deadline %d) is still pending although advance() has processed %d ticks (> one full revolution = %d) since its deadline passed: silently dropped (pendingCount still counts it)"
+                               % (i, deadline[i], overdue[i], span))
+                    break
         elif t[0] == "dump":
             if "!" in ans:
                 bad.append("W1: entry coordinates / id map inconsistent with the bucket lists: %s" % ans[:200])
